@@ -31,13 +31,15 @@ property exit 1{note}.
 for pid in sorted(by):
     L.append(f"| {pid} | " + ", ".join(n.split("-", 1)[1] for n in by[pid]) + " |")
 L.append(f"""
-### 12.2 Independently written breaking changes (`seeded/<property>-<a..g>/`)
+### 12.2 Independently written breaking changes (`seeded/<property>-<a..j>/`)
 
-{len(metas)} changes were written by fresh sub-agents in three rounds (a, b: first round; c, d: second round, where each
+{len(metas)} changes were written by fresh sub-agents in four rounds (a, b: first round; c, d: second round, where each
 agent was additionally told in one line each what the first round had done, so as to do something else, and was
 pushed towards multi-step and cross-feature conditions; e, f: third round, told about both earlier rounds and pushed
 towards changes in *other* modules than the obvious one - codecs, `config.py` identity and matching helpers, the send
-path, session storage - and towards effects that need state accumulated over a long history). An agent got only the text of one property and a scratch
+path, session storage - and towards effects that need state accumulated over a long history; h, i: fourth round, told
+about all earlier ones and asked for lifecycle / ordering, aliasing / shared state, arithmetic / boundary and error-path
+changes; g, j: spare changes two agents delivered on top). An agent got only the text of one property and a scratch
 worktree of `/repo` - nothing from `/verif`. Each change comes with `patch.diff`, a demonstration `demo.py` (passes on the
 unchanged tree, fails with the patch) and `meta.json`. `tools/try_seeded.py` re-confirmed all of that in a scratch
 worktree (demo both ways, unedited test suite green with the patch) and then ran the property's quick check against the
@@ -67,10 +69,16 @@ runs that match the tail of the option array; SD endpoint options on Subscribes;
 stop and start in one loop iteration; a non-cyclic offerer with infinite TTLs; a second SD port on a sender's host and
 offers that come and go inside session histories; more than 64 destinations; entries in front of the refreshing entry;
 endpoint options in another order in the refresh; requesters that restart while an answer is pending; the datagram
-protocol's own dispatch loop; two instances
+protocol's own dispatch loop; a stop in the very iteration of a discovery; node stop / start inside session
+histories and malformed messages in front of good ones in a datagram; several ports per destination host; event ids
+with bit 15 set; several connections per process; two instances
 sharing service and instance id; a lost StopOffer followed by a restart within the TTL; empty event values; messages
 with the unicast flag clear; peer restarts during the session-id soak; one endpoint in two eventgroups; type bytes
 with the TP bit). Each is now generated on purpose and most are reported as probes in the evidence.
+Three misses were not workload gaps: C17 had no liveness clause for cyclic rounds (`C17-h`), the runner ranked "other
+exceptions in most runs" above reproduced violations and exited 2 instead of 1 (`C11-h`), and library state shared
+between objects leaked from run to run inside a worker, so violations did not reproduce (`C18-h`; `lib.reset()` now
+restores every mutable class attribute and module global of the library before each run).
 """)
 p = os.path.join(VERIF, "DESIGN.md")
 s = open(p).read()
